@@ -39,6 +39,14 @@ def extra_programs(ctx):
         ["mkS0 S0 I", "conn C0 G0 S0", "connfn C1 G0 fn:5", "emit G0 1", "disc C0", "disc C1"],
         ["connfn C0 G0 fn:5", "connfn C1 G0 fn:6", "emit G0 1", "disc C1"],
         ["connfn C0 G0 fn:1", "newK K0 C0", "delK K0", "delC C0"],
+        # scoped connections re-assigned while they manage the connection of an empty / a valid slot
+        ["mkS0 S0 I", "conn C0 G0 S0", "newK K0 C0", "connfn C1 G0 fn:1", "asgKC K0 C1", "newK0 K1", "masgK K1 K0", "delK K1",
+         "delK K0", "delS S0", "delC C0", "delC C1"],
+        ["mkS0 S0 I", "connmv C0 G0 S0", "newK0 K0", "asgKC K0 C0", "asgKC K0 C0", "newC C2", "asgKC K0 C2", "delK K0", "delS S0",
+         "delC C0", "delC C2"],
+        # slot variables assigned over and over, connections made from temporaries
+        ["mkS S0 I fn:2", "mkS S1 I trk:3:T0", "asgS S0 S1", "masgS S1 S0", "setS S0 fn:4", "connfn C0 G0 nest:S0", "delS S0", "delS S1",
+         "disc C0"],
     ]
     for ci, cyc in enumerate(cycles):
         for reps in (2, 40):
